@@ -139,11 +139,22 @@ def monitor(res, progs, tier):
     def run(chunk):
         if not chunk:
             return []
-        p = subprocess.run([common.PY, os.path.join(common.VERIF, 'harness', 'audit_worker.py')], input=json.dumps(chunk).encode('utf-8', 'surrogatepass'),
-                           stdout=subprocess.PIPE, stderr=subprocess.PIPE, env=dict(os.environ, PYTHONPATH=common.SRC), timeout=3000)
-        if p.returncode != 0:
-            raise RuntimeError('audit worker failed: ' + p.stderr.decode('utf-8', 'replace')[-800:])
-        return json.loads(p.stdout)
+        with common.scratch('c12mon-') as cwd:      # whatever a wrongly evaluated input text writes lands in a scratch directory
+            p = subprocess.run([common.PY, os.path.join(common.VERIF, 'harness', 'audit_worker.py')], input=json.dumps(chunk).encode('utf-8', 'surrogatepass'), cwd=cwd,
+                               stdout=subprocess.PIPE, stderr=subprocess.PIPE, env=dict(os.environ, PYTHONPATH=common.SRC), timeout=3000)
+            litter = sorted(os.listdir(cwd))
+        try:
+            outs = json.loads(p.stdout) if p.returncode == 0 else None
+        except ValueError:
+            outs = None
+        if outs is None or len(outs) != len(chunk):
+            # the monitored process died or its report is unusable: something other than minification ran in it
+            res.add_violation('c12-monitor-process-disturbed', 'the monitored minify process exited %d / produced an unusable report (stderr: %s)' % (p.returncode, p.stderr.decode('utf-8', 'replace')[-300:]),
+                              {'sources': [c['source'] for c in chunk][:20]})
+            return [{'error': None, 'events': []} for _ in chunk]
+        if litter:
+            res.add_violation('c12-files-created', 'minify created files in its working directory: %s' % litter[:5], {'sources': [c['source'] for c in chunk][:20], 'files': litter[:20]})
+        return outs
     from concurrent.futures import ThreadPoolExecutor
     with ThreadPoolExecutor(8) as ex:
         results = list(ex.map(run, chunks))
